@@ -110,8 +110,11 @@ let () =
         let am = ref (Some (empty_map (nat_of_int cap))) in   (* None after an api mismatch *)
         let opno = ref 0 in
         let structural = ref 0 in
+        (* reports of one case are printed at its end, property-level (api) ones first: the
+           check reports the first mismatch of a case *)
+        let reports = ref [] in
         let report kind what =
-          Printf.printf "MISMATCH line=%d op=%d kind=%s what=%s %s cap=%d: %s\n" !lineno !opno kind impl_s ord_s cap what in
+          reports := (kind, Printf.sprintf "MISMATCH line=%d op=%d kind=%s what=%s %s cap=%d: %s\n" !lineno !opno kind impl_s ord_s cap what) :: !reports in
         List.iter (fun opres ->
           incr opno; incr ops;
           let op_s, res = match split_on opres "->" with
@@ -197,6 +200,9 @@ let () =
                 if not !api_bad then report "fidelity" (Printf.sprintf "%s: implementation %s, model HANG (fuel)" op_s res)
             end
         ) body;
+        let rs = List.rev !reports in
+        List.iter (fun (k, m) -> if k = "api" then print_string m) rs;
+        List.iter (fun (k, m) -> if k <> "api" then print_string m) rs;
         if !structural >= 2 then Hashtbl.replace nontrivial (Digest.string line) ();
         if !samples < 3 && !structural >= 2 then begin
           incr samples;
